@@ -946,7 +946,7 @@ def _judge_one(spec, world, ex, ctx, x, o, value):
                  note="vacuity guard: the path condition of this exit must not be refutable")
         if o.when is not None:
             ex.oblig(p, "RAISES", "%s/only-if" % o.label, o.when(ctx), props=spec.props | {"C02"})
-        if not (x.kind == "raise" and x.exc.cls == "UserExc"):
+        if not (x.kind == "raise" and x.exc.cls == "UserExc") and not o.user:
             for o2 in spec.outcomes:
                 if o2 is not o and o2.when is not None and not o2.user:
                     ex.oblig(p, "RAISES", "%s/not-%s" % (o.label, o2.label), Not(o2.when(ctx)),
